@@ -192,6 +192,20 @@ def run(full=False):
             refuted = "is violated" in r.stdout or "Error:" in r.stdout
             results.append((f"mutated specification refuted by TLC: {what}", refuted))
             log(f"[selftest] spec mutant '{what}': {'refuted' if refuted else 'NOT refuted - invariant is vacuous!'}")
+        # --- the TLAPS proof of the merge loop is about THIS machine: with the Equal arm advancing one cursor only, an obligation must fail
+        d = os.path.join(ctx.scratch, "proofmut")
+        shutil.rmtree(d, ignore_errors=True)
+        os.makedirs(d)
+        src = open(os.path.join(hvlib.SPEC, "proofs", "MergeInduction.tla")).read()
+        arm = "a[i] = b[j] /\\ out' = Append(out, a[i]) /\\ i' = i + 1 /\\ j' = j + 1"
+        if arm not in src:
+            results.append(("proof mutant applies: MergeInduction Equal arm", False))
+        else:
+            open(os.path.join(d, "MergeInduction.tla"), "w").write(src.replace(arm, arm[:-len(" + 1")]))
+            r = subprocess.run(["tlapm", "--threads", "8", "MergeInduction.tla"], cwd=d, stdout=subprocess.PIPE, stderr=subprocess.STDOUT, text=True, timeout=900)
+            failed = "obligations failed" in r.stdout
+            results.append(("TLAPS proof of the merge loop fails for a machine whose Equal arm advances one cursor only", failed))
+            log(f"[selftest] proof mutant 'merge loop, Equal arm': {'an obligation fails as required' if failed else 'STILL PROVED - the proof does not depend on the machine!'}")
         if full:
             rc, out = subprocess.getstatusoutput("git -C /repo status --porcelain")
             if out.strip():
